@@ -7,8 +7,11 @@
 //   wire_driver <mode> random <seed> <count> <out.ndjson>
 // modes: msg (C01)  cap (C02)  bundle (C08)  bytes (C07)
 #include "oscmsg.hpp"
+#include <rtosc/thread-link.h>
+#include <rtosc/ports.h>
 #include "vguard.hpp"
 #include <algorithm>
+#include <set>
 #include <memory>
 
 static size_t build_a(const AMsg &m, char *buf, size_t cap) {
@@ -202,6 +205,57 @@ static AElem random_elem(MsgGen &g, int depth, bool top) {
     return e;
 }
 
+
+// ---------------------------------------------------------------- C02, second half: the library's own fixed buffers
+// ThreadLink::write / writeArray format into write_buffer[MaxMsg]; RtData::reply / broadcast (path, args, ...) format into an
+// 8192-byte stack buffer.  A message is described by (tags, string length / blob length); the variadic entry points are driven
+// through explicit call sites for the tag strings below.  Reference image: rtosc_amessage into a large buffer (judged by C01).
+struct SinkMsg { std::string tags; std::string s1, s2; std::vector<uint8_t> b; int i = 7; };
+static std::vector<rtosc_arg_t> sink_args(const SinkMsg &m) { std::vector<rtosc_arg_t> a; int ns = 0;
+    for (char t : m.tags) { rtosc_arg_t x; memset(&x, 0, sizeof x); if (t == 's') x.s = (ns++ ? m.s2 : m.s1).c_str(); else if (t == 'b') { x.b.len = (int)m.b.size(); x.b.data = (uint8_t *)m.b.data(); } else if (t == 'i') x.i = m.i; else continue; a.push_back(x); } return a; }
+template <class F> static void sink_call(const SinkMsg &m, F f) {   // f(tags, ...) with the values in place
+    const std::string &t = m.tags; const char *a = m.s1.c_str(), *b2 = m.s2.c_str(); int bl = (int)m.b.size(); const uint8_t *bd = m.b.data();
+    if (t == "") f(""); else if (t == "i") f("i", m.i); else if (t == "s") f("s", a); else if (t == "b") f("b", bl, bd); else if (t == "ss") f("ss", a, b2);
+    else if (t == "is") f("is", m.i, a); else if (t == "si") f("si", a, m.i); else if (t == "sb") f("sb", a, bl, bd); else if (t == "bs") f("bs", bl, bd, a); else if (t == "T") f("T"); }
+struct SinkRec : rtosc::RtData { std::string got = "none"; const std::vector<char> *ref = nullptr; long calls = 0;
+    void take(const char *msg) { ++calls; bool zero = true; for (int k = 0; k < 8192; ++k) if (msg[k]) { zero = false; break; }
+        if (zero) { got = "empty"; return; } size_t n = rtosc_message_length(msg, 8192); got = (n == ref->size() && memcmp(msg, ref->data(), n) == 0) ? "same" : "other"; }
+    void reply(const char *msg) override { take(msg); }
+    void broadcast(const char *msg) override { take(msg); }
+    using rtosc::RtData::reply; using rtosc::RtData::broadcast; };
+static void sink_record(FILE *out, const char *what, const SinkMsg &m, long cap, long need, long freeb, long pre, const std::string &got, bool pre_ok, int sig) {
+    JW w; w.obj().kstr("k", "sink").kstr("what", what).kstr("tags", m.tags).knum("cap", cap).knum("need", need).knum("free", freeb).knum("pre", pre).kstr("got", got).kbool("pre_ok", pre_ok)
+        .knum("sig", sig).knum("asan", vg_asan_hits).kstr("asan_what", vg_asan_first).end_obj(); fprintf(out, "%s\n", w.s.c_str()); }
+static void do_sink(const SinkMsg &m, FILE *out) {
+    auto ra = sink_args(m); const char *addr = "/sink/x";
+    std::vector<char> ref(rtosc_amessage(NULL, 0, addr, m.tags.c_str(), ra.data())); rtosc_amessage(ref.data(), ref.size(), addr, m.tags.c_str(), ra.data());
+    long need = (long)ref.size();
+    if (need > 7900 || need < 64) for (int bc = 0; bc < 2; ++bc) { SinkRec d; d.ref = &ref; char loc[64] = "/loc"; d.loc = loc; d.loc_size = sizeof loc;
+        int sig = vg_run(5, [&] { sink_call(m, [&](const char *t, auto... v) { if (bc) d.broadcast(addr, t, v...); else d.reply(addr, t, v...); }); });
+        sink_record(out, bc ? "RtData::broadcast" : "RtData::reply", m, 8192, need, 8192, 0, d.calls == 1 ? d.got : (d.calls ? "other" : "none"), true, sig); }
+    if (need > 1200) return;
+    static const int geo[][2] = {{16, 2}, {16, 4}, {32, 2}, {32, 4}, {64, 4}, {1024, 3}};
+    for (auto &g : geo) { long MaxMsg = g[0], cells = (long)g[0] * g[1];
+        if (need > MaxMsg + 40 && need > 100 && MaxMsg != 1024) continue;
+        std::set<long> pres; long maxp = (cells - 1) / 12; for (long p2 : {0L, 1L, 2L, maxp - 1, maxp}) if (p2 >= 0 && p2 <= maxp) pres.insert(p2);
+        for (long p2 = 0; p2 <= maxp; ++p2) { long fr = cells - 1 - 12 * p2; if (fr >= need - 13 && fr <= need + 13) pres.insert(p2); }       // free space around the needed size
+        for (long pre : pres) for (int arr = 0; arr < 2; ++arr) {
+            std::string got = "none"; bool pre_ok = true; long freeb = cells - 1 - 12 * pre;
+            int sig = vg_run(5, [&] { rtosc::ThreadLink tl((size_t)MaxMsg, (size_t)g[1]);
+                for (long k = 0; k < pre; ++k) tl.write("/m", "i", (int)k);                       // 12-byte markers already queued
+                if (arr) tl.writeArray(addr, m.tags.c_str(), ra.data()); else sink_call(m, [&](const char *t, auto... v) { tl.write(addr, t, v...); });
+                for (long k = 0; k < pre; ++k) { if (!tl.hasNext()) { pre_ok = false; break; } const char *r = tl.read(); if (strcmp(r, "/m") || strcmp(rtosc_argument_string(r), "i") || rtosc_argument(r, 0).i != (int)k) pre_ok = false; }
+                if (pre_ok && tl.hasNext()) { const char *r = tl.read(); size_t n = rtosc_message_length(r, (size_t)MaxMsg); got = (n == ref.size() && memcmp(r, ref.data(), n) == 0) ? "same" : "other"; if (tl.hasNext()) got = "other"; } });
+            sink_record(out, arr ? "ThreadLink::writeArray" : "ThreadLink::write", m, MaxMsg, need, freeb, pre, got, pre_ok, sig); } }
+}
+static void run_sink(uint64_t seed, long count, FILE *out) {
+    MsgGen g(seed * 40503 + 1); static const char *tagsets[] = {"s", "b", "ss", "is", "si", "sb", "bs", "", "i", "T"};
+    // directed: every size around each MaxMsg and around 8192, through one string or blob
+    for (const char *t : {"s", "b", "is"}) for (long base : {16L, 32L, 64L, 1024L, 8192L}) for (long d = -14; d <= 14; ++d) { long L = base - 16 + d; if (L < 0) continue;
+        SinkMsg m; m.tags = t; m.s1.assign((size_t)L, 'q'); m.b.assign((size_t)L, 0x5a); do_sink(m, out); }
+    for (long i = 0; i < count; ++i) { SinkMsg m; m.tags = tagsets[g.R(10)]; bool huge = g.R(6) == 0; long top = huge ? 8300 : (g.R(3) ? 80 : 1100);
+        m.s1.assign((size_t)g.R(top), 'a' + (char)g.R(26)); m.s2.assign((size_t)g.R(g.R(2) ? 20 : top), 'k'); m.b.resize((size_t)g.R(top)); for (auto &x : m.b) x = (uint8_t)g.R(256); m.i = (int)g.R(1000); do_sink(m, out); }
+}
 // ---------------------------------------------------------------- C07
 // arbitrary bytes in an exact-size block flush against a poisoned red zone (n = 0: a
 // pointer to the end of a block).  Phase 1: length + validity; phase 2 (only if the
@@ -274,6 +328,7 @@ int main(int argc, char **argv) {
     } else {
         uint64_t seed = strtoull(argv[3], 0, 10); long count = atol(argv[4]); out = fopen(argv[5], "w");
         MsgGen g(seed * 2654435761u + 17);
+        if (mode == "sink") { run_sink(seed, count, out); fclose(out); return 0; }
         for (long i = 0; i < count; ++i) {
             // sizes: mostly small, sometimes up to the property's stated bounds
             bool big = g.R(10) == 0;
